@@ -41,8 +41,10 @@ Definition u64 (z : Z) : Z := z mod 18446744073709551616.
 
 Definition is_pow2 (n : Z) : bool := (0 <? n) && (Z.land n (n - 1) =? 0).
 
-(* inside this region scrypt.Key does not panic (outside: integer division by zero for r = 0 or
-   p = 0, slice bounds out of range for keyLen < 0) *)
+(* inside this region scrypt.Key does not panic BEFORE or IN its parameter test (outside: integer
+   division by zero for r = 0 or p = 0, slice bounds out of range for keyLen < 0).  It is not the
+   whole no-panic domain: after the parameter test the library allocates its work area, see
+   [scrypt_alloc_ok] below. *)
 Definition scrypt_dom (r p dklen : Z) : bool := (0 <? r) && (0 <? p) && (0 <=? dklen).
 
 (* inside the domain: the parameter limits under which scrypt.Key returns a key and not an error
@@ -55,6 +57,19 @@ Definition scrypt_params_ok (N r p : Z) : bool :=
         || (Z.quot (Z.quot maxInt 128) r <? N)).
 
 Definition scrypt_pre (N r p dklen : Z) : bool := scrypt_dom r p dklen && scrypt_params_ok N r p.
+
+(* After its parameter test scrypt.Key executes  xy := make([]uint32, 64*r); v := make([]uint32, 32*N*r);
+   b := pbkdf2.Key(password, salt, 1, p*128*r, sha256.New).  runtime.makeslice panics ("makeslice: len out
+   of range", an ordinary recoverable panic) when the byte size of the slice exceeds the runtime's
+   maxAlloc; on 64-bit Linux/macOS/Windows (48 heap address bits) maxAlloc = 2^48.  Under the
+   parameter limits (r*p < 2^30, hence r < 2^30) xy (256*r bytes) and b (128*r*p bytes) stay below 2^38;
+   v takes 128*N*r bytes, which the limits only bound by maxInt.  So inside [scrypt_pre] the call panics
+   exactly when 128*N*r > 2^48 (checked against x/crypto v0.31.0 / go1.23.5: N = 2^42 r = 1, N = 2^41
+   r = 2, N = 2^40 r = 3 panic; N*r = 2^41 exactly does not panic in makeslice -- the runtime then
+   tries to map 256 TiB and dies with "fatal error: out of memory", which is not a panic and is not
+   modelled: at or below the cap the model assumes the allocation succeeds). *)
+Definition maxAlloc : Z := 281474976710656.   (* 1 << 48 *)
+Definition scrypt_alloc_ok (N r : Z) : bool := (128 * N * r <=? maxAlloc).
 
 (* PBKDF2 is defined for a positive iteration count; pbkdf2.Key panics for keyLen < 0 *)
 Definition pbkdf2_pre (c dklen : Z) : bool := (0 <? c) && (0 <=? dklen).
